@@ -701,6 +701,70 @@ def drop_mono_predicates(toks, fp):
 # --------------------------------------------------------------------------
 
 
+def _guards_to_else(body):
+    """guard clauses at the top level of a function body, `if C { return E; } REST`, rewritten as `if C { E } else { REST }`
+    (the same control flow without `return`), repeatedly; anything else is left alone."""
+    n = len(body)
+    i = 0
+    stmt_start = True
+    while i < n:
+        t = body[i]
+        if L.is_trivia(t):
+            i += 1
+            continue
+        if stmt_start and t.kind == L.IDENT and t.text == "if":
+            # condition up to the block
+            k = i + 1
+            while k < n and not (body[k].kind == L.PUNCT and body[k].text == "{"):
+                if body[k].kind == L.PUNCT and body[k].text in ("(", "["):
+                    k = L.match_close(body, k)
+                k += 1
+            if k >= n:
+                return body
+            c = L.match_close(body, k)
+            inner = [x for x in body[k + 1:c] if not L.is_trivia(x)]
+            nx = L.skip_trivia(body, c + 1, n)
+            if inner and inner[0].text == "return" and not (nx < n and body[nx].text == "else"):
+                # the returned expression: tokens after `return` up to an optional final `;`
+                r0 = next(j for j in range(k + 1, c) if body[j].kind == L.IDENT and body[j].text == "return")
+                e1 = c
+                while e1 > r0 and (L.is_trivia(body[e1 - 1]) or body[e1 - 1].text == ";"):
+                    e1 -= 1
+                if any(x.kind == L.PUNCT and x.text == ";" for x in body[r0 + 1:e1] if not L.is_trivia(x)) and False:
+                    return body
+                rest = _guards_to_else(body[c + 1:])
+                return (body[:k + 1] + body[r0 + 1:e1] + L.lex(" } else {") + rest + L.lex("}"))
+            # a different `if`: skip its blocks
+            i = c + 1
+            while True:
+                nx = L.skip_trivia(body, i, n)
+                if nx < n and body[nx].text == "else":
+                    k2 = nx + 1
+                    while k2 < n and not (body[k2].kind == L.PUNCT and body[k2].text == "{"):
+                        k2 += 1
+                    i = L.match_close(body, k2) + 1
+                else:
+                    break
+            stmt_start = True
+            continue
+        if t.kind == L.PUNCT and t.text in ("(", "[", "{"):
+            i = L.match_close(body, i) + 1
+            stmt_start = (t.text == "{")
+            continue
+        stmt_start = (t.kind == L.PUNCT and t.text == ";")
+        i += 1
+    return body
+
+
+def cands_impl(unit, spec):
+    """the impl / trait items of the currently open //@impl (for rule R16: sibling methods are inlining candidates)"""
+    try:
+        rel, impls, want = unit.cur_impl
+        return impls
+    except Exception:
+        return None
+
+
 def self_fp_placeholder():
     return "\0"
 
@@ -959,6 +1023,11 @@ class Unit:
         self.log["dropped_docs"] += dd
         self.log["dropped_attrs"] += da
         iter_params = []
+        self.r16_fp = fp
+        if free:
+            mfp = re.search(r"<\s*(\w+)\s*:\s*(?:num_traits::)?Float\s*>", text_of(toks[:find_fn_parts(toks)["params_open"]]))
+            self.r16_fp = mfp.group(1) if mfp else None
+        toks = self.r16_inline_helpers(toks, rel, it, None if free else cands_impl(self, spec), spec["name"])
         if self.mode == "ideal":
             if free:
                 toks, fp = self.mono_header(toks)
@@ -1068,6 +1137,131 @@ class Unit:
                                 "contract": spec["clauses"], "file": rel, "lines": [it.first_line, it.last_line],
                                 "clauses": len(spec["clauses"]), "loop_specs": sum(len(v) for v in spec["loops"].values()),
                                 "body_tokens": len(code_toks(body))})
+
+    def r16_inline_helpers(self, toks, rel, item, impl_items, fn_name, depth=0):
+        """R16: a call `h(e1, .., en)`, `Self::h(..)` or `self.h(..)` to a PRIVATE function of the same source file (free function,
+        or method / associated function of the same impl block) that the unit does not declare is replaced by the callee's body:
+            { let p1__h = e1; ..; let pn__h = en; let p1: T1 = p1__h; ..; let pn: Tn = pn__h; BODY }
+        (arguments evaluated once, in order, before any parameter name is bound).  Only for callees without generic parameters
+        (a single `<X: Float>` is renamed to the caller's float parameter), without `return` / `?` / recursion, and -- for
+        methods -- called on `self` itself.  A maintainer extracting a helper then changes nothing for the unit; anything else
+        stops the tool with exit 2 as before."""
+        if depth > 4:
+            raise Unsupported("helper inlining depth")
+        _, items = self.load(rel)
+        helpers = {}
+        for it_ in items:
+            if it_.kind == "fn":
+                helpers.setdefault(it_.name, []).append(("free", it_))
+        for im in (impl_items or []):
+            for c in im.children():
+                if c.kind == "fn":
+                    helpers.setdefault(c.name, []).append(("method", c))
+        known = getattr(self, "known_fns", set())
+        parts = find_fn_parts(toks)
+        b0 = parts["body_open"]
+        n = len(toks)
+        i = b0 + 1
+        while i < n:
+            t = toks[i]
+            if t.kind == L.IDENT and t.text in helpers and t.text not in known and t.text != fn_name:
+                j = L.skip_trivia(toks, i + 1, n)
+                if j < n and toks[j].text == "(":
+                    # what precedes the name
+                    p1 = i - 1
+                    while p1 >= 0 and L.is_trivia(toks[p1]):
+                        p1 -= 1
+                    form, start = "free", i
+                    if toks[p1].text == ".":
+                        p2 = p1 - 1
+                        while p2 >= 0 and L.is_trivia(toks[p2]):
+                            p2 -= 1
+                        p3 = p2 - 1
+                        while p3 >= 0 and L.is_trivia(toks[p3]):
+                            p3 -= 1
+                        if toks[p2].text == "self" and toks[p3].text not in (".",):
+                            form, start = "method", p2
+                        else:
+                            i += 1
+                            continue
+                    elif toks[p1].text == "::":
+                        p2 = p1 - 1
+                        while p2 >= 0 and L.is_trivia(toks[p2]):
+                            p2 -= 1
+                        if toks[p2].text == "Self":
+                            form, start = "assoc", p2
+                        else:
+                            i += 1
+                            continue
+                    elif toks[p1].text == "fn":
+                        i += 1
+                        continue
+                    cands = [h for k_, h in helpers[t.text] if (k_ == "free") == (form == "free")]
+                    if len(cands) != 1:
+                        i += 1
+                        continue
+                    h = cands[0]
+                    pre_txt = text_of(h.toks[h.pre:h.start]) + text_of([x for x in h.toks[h.start:h.body_open] if not L.is_trivia(x)][:1])
+                    if re.search(r"\bpub\b", text_of(h.toks[h.start:h.body_open]).split("fn")[0]):
+                        i += 1
+                        continue            # only private helpers: a pub function is part of the API and needs its own contract
+                    close = L.match_close(toks, j)
+                    new = self._inline_call(h, toks, j, close, form, t.text)
+                    toks = toks[:start] + new + toks[close + 1:]
+                    n = len(toks)
+                    self.log["rules"]["R16"] = self.log["rules"].get("R16", 0) + 1
+                    self.log.setdefault("inlined_helpers", []).append({"into": fn_name, "helper": t.text, "file": rel, "lines": [h.first_line, h.last_line]})
+                    # re-scan from the start of the replacement (nested helpers)
+                    return self.r16_inline_helpers(toks, rel, item, impl_items, fn_name, depth + 1)
+            i += 1
+        return toks
+
+    def _inline_call(self, h, toks, o, c, form, name):
+        ht, _, _ = strip_docs_attrs(h.toks[h.start:h.end])
+        hp = find_fn_parts(ht)
+        if hp["where"] is not None:
+            raise Unsupported("helper %s has a where clause (not inlined)" % name)
+        body = ht[hp["body_open"] + 1:len(ht) - 1]
+        if hp["gen_open"] is not None:
+            g = [x.text for x in ht[hp["gen_open"] + 1:hp["gen_close"]] if not L.is_trivia(x)]
+            fp_caller = getattr(self, "r16_fp", None)
+            if len(g) >= 3 and g[1] == ":" and g[-1] == "Float" and "," not in g and fp_caller:
+                # the helper's only generic parameter is a float type: at this call site it is the caller's float parameter
+                gname = g[0]
+                ht = [L.Tok(x.kind, fp_caller if (x.kind == L.IDENT and x.text == gname) else x.text, x.line) for x in ht]
+                body = ht[hp["body_open"] + 1:len(ht) - 1]
+            else:
+                raise Unsupported("helper %s has generic parameters (not inlined)" % name)
+        body = _guards_to_else(body)
+        for x in body:
+            if x.kind == L.IDENT and x.text in ("return", name) or (x.kind == L.PUNCT and x.text == "?"):
+                raise Unsupported("helper %s uses `%s` (not inlined)" % (name, x.text))
+        # parameters
+        params = []
+        has_self = False
+        for a, b in _split_top(ht, hp["params_open"] + 1, hp["params_close"], ","):
+            ptxt = text_of(ht[a:b]).strip()
+            if not ptxt:
+                continue
+            if re.fullmatch(r"&?\s*(mut\s+)?self", ptxt):
+                has_self = True
+                if "mut" in ptxt:
+                    raise Unsupported("helper %s takes &mut self (not inlined)" % name)
+                continue
+            m_ = re.match(r"(mut\s+)?(\w+)\s*:\s*(.*)$", ptxt, re.S)
+            if not m_:
+                raise Unsupported("helper %s: parameter shape `%s`" % (name, ptxt))
+            params.append((m_.group(2), m_.group(3).strip(), bool(m_.group(1))))
+        if has_self != (form == "method"):
+            raise Unsupported("helper %s: receiver form mismatch" % name)
+        args = [text_of(toks[a:b]).strip() for a, b in _split_top(toks, o + 1, c, ",") if text_of(toks[a:b]).strip()]
+        if len(args) != len(params):
+            raise Unsupported("helper %s: %d arguments for %d parameters" % (name, len(args), len(params)))
+        pre = "".join("let %s__%s = %s; " % (pn, name, a) for (pn, _, _), a in zip(params, args))
+        pre += "".join("let %s%s: %s = %s__%s; " % ("mut " if mu else "", pn, ty, pn, name) for pn, ty, mu in params)
+        # parenthesised: a block in statement position followed by an operator would otherwise end the statement
+        out = L.lex("({ " + pre) + list(body) + L.lex(" })")
+        return out
 
     def r6b_local_consts(self, toks, rel):
         """R6b: a module-level `const NAME: f64 = <float literal>;` of the same file that the function mentions but the unit does
@@ -1320,6 +1514,15 @@ class Unit:
     def build(self):
         lines = self.read_template(self.path)
         self.cur_impl = None
+        # names the unit itself provides (directives and template text): a call to anything else that is a PRIVATE function of
+        # the same source file is inlined (rule R16)
+        self.known_fns = set()
+        for ln in lines:
+            m_ = re.match(r"\s*//@(?:fn|freefn\s+\S+)\s+(\w+)", ln)
+            if m_:
+                self.known_fns.add(m_.group(1))
+            elif not ln.strip().startswith("//"):
+                self.known_fns.update(re.findall(r"\bfn\s+(\w+)", ln))
         i = 0
         n = len(lines)
         while i < n:
